@@ -88,3 +88,8 @@ CHECKS["C18"] = {
   "note": "Assigned objects are of the field's own class; BufferNumpy only (one buffer kind per context); dynamic nested objects are assigned only when their layout fits (C11 covers misfits).",
   "technique": "model-based property testing: generated class definitions and operation histories against a nested-value model with shared referents",
 }
+CHECKS["C15"] = {
+  "text": "Exploration: generated type expressions of the full grammar x values; the accessor source is assembled for cpu_serial, cpu_openmp, opencl and cuda the way the contexts assemble it (GPU paths transcribed from the contexts' build_kernels: target header + class sources (+ extern \"C\") + specialize_source). Oracle: identical token streams of the class API after deleting the closed set of target qualifiers; every pointer declarator/cast of the OpenCL text carries __global and every handle typedef is __global struct; gcc/g++ -fsyntax-only accept each text with the target keywords defined away; for a third of the cases the OpenCL and CUDA texts are compiled on the host into shared objects and every get/getp/len/typeid/member accessor is executed with every in-range index on the same object as the CPU build (equal values and relative addresses). 16 workers x 80 / 1200 types.",
+  "note": "No OpenCL/CUDA toolchain in the sandbox: host compilers stand in, as the statement allows; GPU contexts cannot be instantiated, their source assembly is transcribed.",
+  "technique": "property-based differential testing of generated code across targets: token-stream comparison, qualifier scan, host compilation and execution",
+}
